@@ -210,6 +210,36 @@ CLAIMS["C05"] = (
     "Trusted: the legality matrix (sa/props/c05.py) and the float semantics of nandomain.py.",
     "DESIGN.md §2 C05")
 
+CLAIMS["C06"] = (
+    "exactly-once / must-precede CFG path rules, timestamp provenance, loop-shape rules on the "
+    "first-run synchronisation, shared fallback-synchronisation rules",
+    "Decides on the parsed source: every input is fetched once per round and all fetches are "
+    "awaited (ALL_COMPLETED, no filter); along every path of fetch_next/_fetch_next/"
+    "fetch_next_with_fallback the primary stream is received exactly once and no step receives; "
+    "the emitted timestamp derives only from fetched samples and the steps are evaluated after it "
+    "is fixed; the first-run synchronisation drains every stream of every lagging group up to the "
+    "latest first timestamp, errors on overshoot and clears the flag only at the end; the fallback "
+    "synchronisation never returns a sample from another timestamp; the three-phase zip receives "
+    "one sample per phase per round. Behaviour under receiver overflow and alignment of the three "
+    "per-phase engines under lag are not decided.",
+    "Trusted: once aligned, synchronous input streams stay aligned under one-receive-per-round; "
+    "cooperative scheduling.",
+    "DESIGN.md §2 C06")
+CLAIMS["C19"] = (
+    "abstract interpretation of the source-selection function over all outcome combinations; "
+    "exception-discipline rules incl. catchability of the handler expression; CFG dominance rules",
+    "Decides on the parsed source: fetch_next_with_fallback returns the primary iff it is valid or no "
+    "synchronised fallback sample exists, the fallback otherwise, and the fallback's next sample "
+    "when the primary errors (all abstract outcomes enumerated); every receive() in MetricFetcher "
+    "is guarded by a handler that names a catchable class (two documented terminal sites); the "
+    "fallback is started lazily, only when not running and the primary is invalid by the shared "
+    "predicate or failed; the fallback synchronisation keeps every sample it reads, tests 'primary "
+    "older' on every call and advances only the fallback; the fallback receiver has the default "
+    "capacity. The length of the start-up delay is not decided.",
+    "Trusted: Python evaluates an except clause's expression only when an exception reaches it; "
+    "frequenz.channels ReceiverError hierarchy.",
+    "DESIGN.md §2 C19")
+
 PENDING_REASON = ("no static check is registered for this property yet in this revision of the "
                   "machinery (planned rules are in DESIGN.md §2); nothing is claimed for it")
 
